@@ -163,6 +163,14 @@ def judge (req ans : List String) : Option Complaints :=
       pure (judgeBytesApi (← unhex b) (← unhex le) (← unhex be) (← unhex fb))
   | ["try_le", t, b], [a] => do
       let T ← Ty.ofName t; pure (judgeTryLe T (← unhex b) (← parsePAns a))
+  | ["try_le_fill", _, _, _], ["panic"] => some [("C05", "panic")]
+  | ["try_le_fill", t, len, _], ["okfill", n, v] => do
+      let T ← Ty.ofName t; pure (judgeTryLeLen T (← len.toNat?) (some (← n.toNat?, v == "1")) none)
+  | ["try_le_fill", t, len, _], [a] => do
+      let T ← Ty.ofName t
+      match ← parsePAns a with
+      | .err f => pure (judgeTryLeLen T (← len.toNat?) none (some f))
+      | _ => none
   | ["consts", _], ["panic"] => some [("C05", "panic")]
   | ["consts", t], ["consts", mx, mn, mp, fmx, fmn, fmp, dg, e0, e1] => do
       let T ← Ty.ofName t
@@ -213,7 +221,7 @@ def answerLine (line : String) : String :=
     | r => r
   -- an error text that names a figure beyond 2^28 bytes (a wrapped subtraction, say) is untruthful on its face (C17), and
   -- the sufficiency test `10^p` for such a width would exhaust the oracle's memory: judged here, not passed on
-  let absurd := ans.any fun t =>
+  let absurd := !(req.head? == some "try_le" || req.head? == some "try_le_fill") && ans.any fun t =>
     t.startsWith "err:" && ((t.splitOn ":").drop 2).any fun f => match f.toNat? with | some n => n > 2 ^ 28 | none => false
   let verdict := if absurd then "VIOL C17:the_error_names_a_width_beyond_2^28_bytes" else match judge req ans with
     | some cs => showComplaints cs
